@@ -144,31 +144,29 @@ ImplEqualsDecl ==
 
 (*--------------- laws of the requirement itself --------------------------*)
 DeclSymmetric ==
-  LET g == G
-      T == [x \in Nodes |->
-              LET near == Touching(g, x) IN
-              [ac \in AcU |-> [ro \in RlU |-> [rr \in RlU |->
-                  AssocsVia(g, near, x, ac, "", ro, rr)]]]] IN
-  \A x \in Nodes, y \in Nodes : \A ac \in AcU, ro \in RlU, rr \in RlU :
-     (y \in T[x][ac][ro][rr]) <=> (x \in T[y][ac][rr][ro])
+  LET g == G IN
+  \A x \in Nodes :
+     LET near == Touching(g, x) IN
+     \A ac \in AcU, ro \in RlU, rr \in RlU :
+        LET S == AssocsVia(g, near, x, ac, "", ro, rr) IN
+        \A y \in Nodes : (y \in S) <=> (x \in Assocs(g, y, ac, "", rr, ro))
 
-(* the declarative sets of one source are tabulated once per state *)
 DeclMonotone ==
   LET g == G IN
   \A x \in Nodes :
-     LET near == Touching(g, x)
-         T == [ac \in AcU |-> [rc \in RcU |-> [ro \in RlU |-> [rr \in RlU |->
-                 AssocsVia(g, near, x, ac, rc, ro, rr)]]]]
-         R == [ac \in AcU |-> [ro \in RlU |-> RefsVia(near, x, ac, ro)]] IN
+     LET near == Touching(g, x) IN
      \/ near = {} /\ store # {}      \* every set is a union over nothing
-     \/ \A ac \in AcU, rc \in RcU, ro \in RlU, rr \in RlU :
-          LET S == T[ac][rc][ro][rr] IN
-          /\ S \subseteq T[""][rc][ro][rr]
-          /\ S \subseteq T[ac][""][ro][rr]
-          /\ S \subseteq T[ac][rc][""][rr]
-          /\ S \subseteq T[ac][rc][ro][""]
-          /\ R[ac][ro] \subseteq R[""][ro]
-          /\ R[ac][ro] \subseteq R[ac][""]
+     \/ /\ \A ac \in AcU, rc \in RcU, ro \in RlU, rr \in RlU :
+             LET S == AssocsVia(g, near, x, ac, rc, ro, rr) IN
+             \/ S = {} /\ store # {}
+             \/ /\ S \subseteq AssocsVia(g, near, x, "", rc, ro, rr)
+                /\ S \subseteq AssocsVia(g, near, x, ac, "", ro, rr)
+                /\ S \subseteq AssocsVia(g, near, x, ac, rc, "", rr)
+                /\ S \subseteq AssocsVia(g, near, x, ac, rc, ro, "")
+        /\ \A ac \in AcU, ro \in RlU :
+             LET S == RefsVia(near, x, ac, ro) IN
+             /\ S \subseteq RefsVia(near, x, "", ro)
+             /\ S \subseteq RefsVia(near, x, ac, "")
 
 (* class level (state independent; evaluated in the initial state only):   *)
 (* the Names and the full operation of the code-shaped machine agree       *)
